@@ -13,7 +13,7 @@ from soundevent.geometry import (
     geometry_to_shapely,
     get_geometry_point,
 )
-from vt.enc import limbs, ticks_or_none
+from vt.enc import fhex, limbs, ticks_or_none
 from vt.geom import FREQ_UNIT, TIME_UNITS, build
 
 PROPERTY = "C05"
@@ -29,13 +29,17 @@ CHUNK = 1500
 RULE = ("one case per geometry of the TLA+ universe (all stamps / intervals / points / boxes incl. zero extent on time 0..4 x "
         "frequency {0,1,2,3,FMAX}; 2- and 3-point lines; multi-points; rectangles cw/ccw open/closed, triangles, L-shapes, "
         "degenerate rings, polygons with one and two holes; multi-lines and multi-polygons of 1..3 members), as histories of "
-        "length 1, again 2^26 ticks late in the recording (wholly, and straddling), plus every ordered pair of regroupings of one vertex sequence (multi-lines of 4..6 points, a six-point ring vs "
+        "length 1, long lines / rings of 65..300 vertices with collinear runs, decimal-coordinate cases (0.1 s and 0.01 s grids, "
+        "frequencies like 1234.56 Hz) for the named positions, again 2^26 ticks late in the recording (wholly, and straddling), plus every ordered pair of regroupings of one vertex sequence (multi-lines of 4..6 points, a six-point ring vs "
         "shell + hole, nested rings grouped into polygons) converted one after the other in one process, plus random geometries "
         "and random regrouping histories on a 1000 x 5000 lattice; each member run at 3 exact time units, all 11 positions; "
         "non-trivial = not a bare time stamp")
 TRUSTED_BASE = ["checks/c05.py + vt/geom.py (build objects on dyadic units; read bounds / shapely coordinates / feature values / "
                 "points back as exact integer ticks, centroid and point_on_surface as exact limb numbers)"]
 ASSUMPTIONS = ["dyadic time units and a 1000 Hz frequency tick make every float operation of the implementation exact",
+               "decimal cases (tick / 10, / 100, / 1000 s; tick / 100 Hz) are judged on identities of doubles (a bound is a coordinate, a "
+               "corner coordinate is a bound), on order (a midpoint lies within the bounds) and with the absolute tolerance 2^-32 / q "
+               "written in the specification (a midpoint against the exact rational midpoint)",
                "geometries are valid and in normal form (as every constructed object is); polygon rings are simple, holes lie inside the shell and not inside one another",
                "rings are compared as closed curves (closing repetitions, start point and direction are not demanded)",
                "the shapely kind is demanded only for the six kinds that have a shapely namesake"]
@@ -132,9 +136,50 @@ def _run(g, tu):
     }
 
 
+def _map(kind, c, ft, ff):
+    """the same coordinates with ft applied to every time and ff to every frequency."""
+    if kind == "TimeStamp":
+        return ft(c)
+    if kind == "TimeInterval":
+        return [ft(c[0]), ft(c[1])]
+    if kind == "BoundingBox":
+        return [ft(c[0]), ff(c[1]), ft(c[2]), ff(c[3])]
+    if not isinstance(c[0], list):
+        return [ft(c[0]), ff(c[1])]
+    return [_map(kind, x, ft, ff) for x in c]
+
+
+def _run_dec(g, tq, fq):
+    """a geometry whose coordinates are no ticks of a dyadic unit: time = tick / tq s, frequency = tick / fq Hz.
+    Everything is shipped as the doubles themselves (hex strings for identity, limb numbers for order)."""
+    tmap, fmap = {}, {}
+
+    def ft(k):
+        tmap[k] = k / tq
+        return tmap[k]
+
+    def ff(k):
+        fmap[k] = k / fq
+        return fmap[k]
+
+    geom = build({"type": g["type"], "coordinates": _map(g["type"], g["coordinates"], ft, ff)}, 1.0, 1.0)
+    raised = []
+    nan4 = [float("nan")] * 4
+    b = _try(raised, "compute_bounds", lambda: [float(x) for x in compute_bounds(geom)], nan4)
+    pts = [_try(raised, "get_geometry_point/" + p, lambda: [float(x) for x in get_geometry_point(geom, position=p)[:2]],
+                [float("nan")] * 2) for p in POSITIONS]
+    return {"tmap": [[k, fhex(v)] for k, v in sorted(tmap.items())], "fmap": [[k, fhex(v)] for k, v in sorted(fmap.items())],
+            "bhex": [fhex(x) for x in b], "blimbs": [limbs(x) for x in b],
+            "ahex": [[fhex(x) for x in p] for p in pts], "alimbs": [[limbs(x) for x in p] for p in pts],
+            "raised": raised}
+
+
 def execute(case):
     # in order, in this process: member i is completely handled (all units) before member i + 1 is built
-    return {"steps": [{"runs": [_run(g, tu) for tu in TIME_UNITS]} for g in case["gs"]]}
+    if case.get("dec"):
+        d = case["dec"][0]
+        return {"steps": [{"runs": [], "dec": [_run_dec(g, d["tq"], d["fq"])]} for g in case["gs"]]}
+    return {"steps": [{"runs": [_run(g, tu) for tu in TIME_UNITS], "dec": []} for g in case["gs"]]}
 
 
 # ----------------------------------------------------------------------------- random geometries on a larger lattice
@@ -222,7 +267,26 @@ def random_cases(rng, tier):
         # MAX_FREQUENCY seconds; 2**26 ticks are beyond it at every time unit)
         if rng.random() < 0.35:
             c = _late(k, c, rng.choice([5000000, 5000001, 40000000, 40000001, 2 ** 26, 2 ** 26 + 12345]))
-        yield {"gs": [{"type": k, "coordinates": c}]}
+        yield {"gs": [{"type": k, "coordinates": c}], "dec": []}
+        if rng.random() < 0.3 and k not in ("Polygon", "MultiPolygon"):
+            # the same ticks read as decimals: time = tick / 100 s or tick / 1000 s, frequency = tick / 100 Hz (small values:
+            # the midpoint tolerance of the specification is absolute)
+            yield {"gs": [{"type": k, "coordinates": _small(k, c, rng)}], "dec": [{"tq": rng.choice([100, 1000]), "fq": 100}]}
+    # long lines and rings with runs of exactly collinear vertices
+    for _ in range(n // 20):
+        m = rng.choice([65, 66, 80, 128, 200, 300])
+        pts, t, f = [], rng.randrange(0, 50), rng.randrange(0, 4000)
+        while len(pts) < m:
+            run, dt, df = rng.randint(1, 12), rng.choice([0, 1, 1, 2]), rng.choice([0, 0, 1, -1, 3])
+            for _ in range(run):
+                t, f = t + dt, min(FMAXT, max(0, f + df))
+                pts.append([t, f])
+        pts = pts[:m]
+        if pts[0][0] >= pts[-1][0]:
+            pts[-1][0] = pts[0][0] + 1
+        k = rng.choice(["LineString", "MultiLineString", "MultiLineString"])
+        c = pts if k == "LineString" else rng.choice([[pts], [[[0, 0], [1, 5]], pts], [pts, [[3, 1], [9, 1], [12, 1]]]])
+        yield {"gs": [{"type": k, "coordinates": c}], "dec": []}
     # histories: random regroupings of one forward-running vertex sequence / of one list of nested rings
     for _ in range(n // 4):
         if rng.random() < 0.6:
@@ -238,7 +302,7 @@ def random_cases(rng, tier):
             ks = rng.sample(range(1, len(rings) + 1), min(len(rings), rng.randint(2, 3)))
             # holes stay with the shell or stand alone: [[shell, h1, h2]] / [[shell, h1], [h2]] / [[shell], [h1], [h2]]
             gs = [{"type": "MultiPolygon", "coordinates": [_copy(rings[:k])] + [[_copy(r)] for r in rings[k:]]} for k in ks]
-        yield {"gs": gs}
+        yield {"gs": gs, "dec": []}
 
 
 def _late(kind, c, t0):
@@ -252,6 +316,24 @@ def _late(kind, c, t0):
     if isinstance(c[0], int):
         return [c[0] + t0, c[1]]
     return [_late(kind, x, t0) for x in c]
+
+
+def _small(kind, c, rng):
+    """the same structure with times folded into 0..999 ticks and frequencies into 0..199999 ticks (order may change:
+    lines that need an order are put back into it)."""
+    out = _map(kind, c, lambda t: t % 1000, lambda f: (f * 37) % 200000)
+    if kind == "TimeInterval":
+        out.sort()
+    if kind == "BoundingBox":
+        out = [min(out[0], out[2]), min(out[1], out[3]), max(out[0], out[2]), max(out[1], out[3])]
+    if kind == "LineString" and out[0][0] > out[-1][0]:
+        out.reverse()
+    if kind == "MultiLineString":
+        for line in out:
+            line.sort(key=lambda p: p[0])
+            if line[0][0] == line[-1][0]:
+                line[-1][0] += 1
+    return out
 
 
 def _copy(x):
